@@ -98,7 +98,9 @@ def core_doubles():
             if bits(v) not in seen:
                 seen.add(bits(v))
                 out.append(v)
-    for v in (0.0, -0.0, NAN, INF, -INF, 2.0 ** -1074, 2.0 ** 1023, 2.0 ** 70, 2.0 ** -20, 255.0, -255.0, 0.5 ** 10 * 3):
+    for v in (0.0, -0.0, NAN, INF, -INF, 2.0 ** -1074, 2.0 ** 1023, 2.0 ** 70, 2.0 ** -20, 255.0, -255.0, 0.5 ** 10 * 3,
+              # subnormals and the first normals (their ulp is not 2^(e-52))
+              2.5e-320, 3 * 2.0 ** -1074, 2.0 ** -1060 * 5, 2.2250738585072009e-308, 2.2250738585072014e-308, 4.4501477170144023e-308, -2.5e-320):
         if bits(v) not in seen:
             seen.add(bits(v))
             out.append(v)
